@@ -412,6 +412,7 @@ class K3State:
         lo_, ro_ = self.econtext.fields['local'], self.econtext.fields['root']
         g.setdefault('extcalls', []).append({
             'callee': callee, 'args': list(args), 'kwargs': dict(kwargs),
+            'token': I.env.get('__token'),
             'i18n': (I.env.get('__i18n_domain'), I.env.get('__i18n_context'),
                      I.env.get('target_language'))})
         nth = len(g['extcalls']) - 1
@@ -585,6 +586,11 @@ def rctx_method(I, rec, name, args, kwargs):
         return models.get_item(I, m, args[0])
     if name == 'get':
         return models.dict_method(I, m, 'get', args, kwargs)
+    if name == '__len__':
+        card = z3.Function('dict_len', m.has.sort(), z3.IntSort())
+        n = card(m.has)
+        I.assume(n >= 0)
+        return VInt(n)
     if name == 'setdefault':
         kt = models.strterm(args[0])
         if I.decide(z3.Select(m.has, kt), 'setdefault-present'):
@@ -850,6 +856,11 @@ def k3_prims():
         x = _ext(I, _c(a[0]))
         return VStr(x['out']) if x and 'out' in x else VStr(z3.String(fresh_name('no_out')))
 
+    def ext_token(I, a, k, n):
+        """value of __token when the k-th external call was made"""
+        x = _ext(I, _c(a[0]))
+        return x['token'] if x else fresh(ANY, 'no_such_call')
+
     def ext_last(I, a, k, n):
         return VInt(len(I.ghost.get('extcalls', [])) - 1)
 
@@ -946,7 +957,7 @@ def k3_prims():
     return {f.__name__: (lambda I, a, k, n, f=f: f(I, a, k, n)) for f in
             (S, S0, piece, out, val, evals, holes, trace, raised, exc_in, exc_is_exception, quoted,
              converted, visible, UNBOUND, visible0, visible_at, DEFAULT, local, rlen, ritem, acc, out_at,
-             scope_frame, template_pos, token_now, ext_count, ext_last, ext_raised, ext_callee, ext_result, ext_arg, ext_out, ext_i18n, is_stream,
+             scope_frame, template_pos, token_now, ext_count, ext_token, ext_last, ext_raised, ext_callee, ext_result, ext_arg, ext_out, ext_i18n, is_stream,
              is_rcontext, is_scope_copy, scope_arg_visible, attr_of, module_function, globals_visible,
              in_local, translate_arg, translate_result, normalize, i18n0,
              i18n_now, i18n_at, global_now, handler_calls, handler_configured,
